@@ -62,6 +62,22 @@ def cases(tier, seed):
     for b in bad:
         for d in dirs:
             add('a^(%sk)' % d, {'a': [x for x in b if x.get('k', 0) is not None]}, ('err',))
+    # mixed kinds anywhere in the array, with items whose term is missing in between (exhaustive over
+    # a 4-value domain {number, string, missing, boolean} up to length 4, and random longer ones)
+    kd = [1, 'x', None, True]
+    for L in range(1, 5):
+        for keys in itertools.product(kd, repeat=L):
+            if len(set(type(k) for k in keys if k is not None)) < 2:
+                continue
+            arr = [dict({'id': i}, **({} if k is None else {'k': k})) for i, k in enumerate(keys)]
+            add('a^(%sk)' % rng.choice(dirs), {'a': arr}, ('err', 'mixed'))
+            if tier != 'quick' or rng.random() < 0.3:
+                add('a^(id, %sk)' % rng.choice(dirs), {'a': arr}, ('err', 'mixed'))
+                add('a^(k ? k : nothing)', {'a': arr}, ('err', 'mixed'))
+    for i in range(200 if tier == 'quick' else 10000):
+        m = rng.randint(2, 12)
+        arr = [dict({'id': j}, **({} if rng.random() < 0.4 else {'k': rng.choice([1, 2, 'a', 'b', 2.5])})) for j in range(m)]
+        add('a^(%sk)' % rng.choice(dirs), {'a': arr}, ('err', 'mixed'))
     for v in [[1, 'a'], [True], [[1], [2]], [{}], 'x', 5, [1, 2, 'b'], []]:
         add('$sort(a)', {'a': v}, ('err',))
         add('$sort(a, function($x,$y){$x})', {'a': v}, ('err',))
